@@ -7,6 +7,7 @@
 -/
 import Abnf.Equiv
 import Abnf.RTree
+import Abnf.StructEq
 namespace Abnf
 
 def treeDefn (t : RTree) (r : Nat) : Option Expr :=
@@ -101,5 +102,51 @@ theorem coverMask_sound : ∀ (ps : List (Nat × Nat)) (k : Nat), (coverMask ps)
 theorem covers_all {ps : List (Nat × Nat)} {n : Nat} (h : coverMask ps = 2 ^ n - 1) (k : Nat) (hk : k < n) :
     ∃ b, (k, b) ∈ ps :=
   coverMask_sound ps k (by rw [h, Nat.testBit_two_pow_sub_one]; simpa using hk)
+
+/-! ### structural equality of two tables (kernel-fast): `simOkF` ⇒ the engine gives the same answers -/
+
+def simPairOk (t1 t2 : RTree) (pairT : Nat → Nat → Bool) (p : Nat × Nat) : Bool :=
+  pairT p.1 p.2 &&
+  (match t1.lookup p.1, t2.lookup p.2 with
+    | some i1, some i2 => simInfo pairT i1 i2
+    | none, none => true
+    | _, _ => false)
+
+/-- every listed pair of rule records agrees structurally (iteration domain `chunk`, pair test of the whole list) -/
+def simOkChunk (t1 t2 : RTree) (W : Nat) (pairs chunk : List (Nat × Nat)) : Bool :=
+  chunk.all (simPairOk t1 t2 (maskT (mkMask W pairs) W))
+
+theorem simG_of_simOk {t1 t2 : RTree} {W : Nat} {pairs : List (Nat × Nat)} (w1 : t1.wf = true) (w2 : t2.wf = true)
+    (h : simOkChunk t1 t2 W pairs pairs = true) : SimG t1.toGrammar t2.toGrammar (maskT (mkMask W pairs) W) := by
+  intro r1 r2 hp
+  have hmem := maskT_sound W pairs r1 r2 hp
+  have := (Bool.and_eq_true _ _ ▸ List.all_eq_true.mp h (r1, r2) hmem : _ ∧ _).2
+  simp only at this
+  rw [RTree.lookup_grammar t1 w1, RTree.lookup_grammar t2 w2] at this
+  cases h1 : t1.toGrammar[r1]? with
+  | none =>
+    rw [h1] at this
+    cases h2 : t2.toGrammar[r2]? with
+    | none => exact Or.inl ⟨rfl, rfl⟩
+    | some i2 => rw [h2] at this; cases this
+  | some i1 =>
+    rw [h1] at this
+    cases h2 : t2.toGrammar[r2]? with
+    | none => rw [h2] at this; cases this
+    | some i2 => rw [h2] at this; exact Or.inr ⟨i1, i2, rfl, rfl, this⟩
+
+/-- paired rules: the engine answers identically on the two tables (ends, trees, ParseError / GrammarError alike) -/
+theorem engine_equal_of_simOk {t1 t2 : RTree} {W : Nat} {pairs : List (Nat × Nat)} (w1 : t1.wf = true) (w2 : t2.wf = true)
+    (h : simOkChunk t1 t2 W pairs pairs = true) {r1 r2 : Nat} (hmem : (r1, r2) ∈ pairs) (f : Nat) (s : Src) (i : Nat) :
+    lparse t1.toGrammar f s (.ref r1) i = lparse t2.toGrammar f s (.ref r2) i := by
+  have hpt : maskT (mkMask W pairs) W r1 r2 = true := by
+    have := List.all_eq_true.mp h (r1, r2) hmem
+    simp only [simPairOk, Bool.and_eq_true] at this
+    exact this.1
+  exact lparse_sim _ _ _ (simG_of_simOk w1 w2 h) f s (.ref r1) (.ref r2) i (by simpa [simE] using hpt)
+
+theorem simOkChunk_append (t1 t2 : RTree) (W : Nat) (pairs a b : List (Nat × Nat)) :
+    simOkChunk t1 t2 W pairs (a ++ b) = (simOkChunk t1 t2 W pairs a && simOkChunk t1 t2 W pairs b) := by
+  simp [simOkChunk, List.all_append]
 
 end Abnf
